@@ -675,6 +675,19 @@ def disc_recorded_corpus():
                  rules2={1: R(obs=1, disc=[2]), 2: R(req=[1, 9]), 9: R(obs=1)}, env2={1: 5, 9: 2}, root2=2, discipline=True)]
 
 
+def private_copy(src, dst):
+    import shutil, time
+    for attempt in range(5):
+        try:
+            tmp = dst + ".tmp%d" % os.getpid()
+            shutil.copy2(src, tmp)
+            os.replace(tmp, dst)
+            return dst
+        except OSError:
+            time.sleep(1.0)
+    return src
+
+
 def run(chk, only=None):
     drv = vlib.build_drivers(["engine_driver"])["engine_driver"]
     model = vlib.model_bin("cycle")
@@ -689,6 +702,8 @@ def run(chk, only=None):
     rng = chk.rng
     wd = os.path.join(vlib.WORK, "c07-%s" % chk.tier)
     os.makedirs(wd, exist_ok=True)
+    # a private copy of the driver: other checks may relink the shared binary while this one is running thousands of processes
+    drv = private_copy(drv, os.path.join(wd, "engine_driver"))
     J = Judge(chk)
     J.verb = verb
     scheds = SCHEDS_Q if chk.quick() else ["sync", "defer:1", "defer:7", "mixed:2", "mixed:5", "threads:3"]
@@ -827,7 +842,7 @@ def run(chk, only=None):
 
     # ---- thorough: the same histories under AddressSanitizer + UBSan (crashes and out-of-bounds reads only; no re-judging)
     if not chk.quick() and only is None and not os.environ.get("VERIF_C07_DRIVER"):
-        adrv = vlib.build_drivers(["engine_driver"], "asan")["engine_driver"]
+        adrv = private_copy(vlib.build_drivers(["engine_driver"], "asan")["engine_driver"], os.path.join(wd, "engine_driver_asan"))
         asan_env = dict(os.environ, ASAN_OPTIONS="detect_leaks=0")
 
         def do_rec_asan(ic):
